@@ -29,7 +29,8 @@ GlobalGraph::GlobalGraph(bool directed_p) :
 
 GlobalGraph::GlobalGraph(const GlobalGraph& gg) :
   directed_(gg.directed_),
-  observers_(gg.observers_),
+  // the observers of gg observe gg, not its copy
+  observers_(set<GraphObserver*>()),
   highestNodeID_(gg.highestNodeID_),
   highestEdgeID_(gg.highestEdgeID_),
   nodeStructure_(gg.nodeStructure_),
@@ -40,7 +41,7 @@ GlobalGraph::GlobalGraph(const GlobalGraph& gg) :
 GlobalGraph& GlobalGraph::operator=(const GlobalGraph& gg)
 {
   directed_ = gg.directed_;
-  observers_ = gg.observers_;
+  // observers_ is kept: the observers registered here stay, those of gg observe gg
   highestNodeID_ = gg.highestNodeID_;
   highestEdgeID_ = gg.highestEdgeID_;
   nodeStructure_ = gg.nodeStructure_;
